@@ -8,6 +8,7 @@ CONSTANTS
     MaxTime = 100000000
     MaxPoints = 100000000
     PurgeGuard = TRUE
+    MaxBarriers = 0
 INVARIANTS
     TypeOK
     WindowContents
